@@ -270,7 +270,57 @@ def analyse(P, fn, S, pos, summaries=None, depth=0):
                 return min(CAP, max(st, j + 1))
         return st
 
-    before, at_exit, sin, bout = fn.forward(0, on_event, on_edge)
+    # ---- snapshots: `ch = s[pos + j]` - a test of the local is a test of that byte while the cursor has not moved past
+    # what the snapshot remembers (the offset is shifted with the cursor) and the local has not been re-assigned
+    def snap_of(ev):
+        val = ev.get('init') if ev['k'] == 'decl' else ev.get('rhs') if ev['k'] == 'store' and ev.get('op') == '=' else None
+        tgt = ev.get('var') if ev['k'] == 'decl' else (ev['lhs']['name'] if ev['k'] == 'store' and is_var(ev.get('lhs')) else None)
+        if tgt and tgt != pos and isinstance(val, dict) and val.get('k') == 'idx' and is_var(val.get('base'), S):
+            j = _offset(val['index'], pos)
+            if j is not None:
+                return tgt, j
+        return None, None
+
+    def ev2(state, s):
+        h, snaps = state
+        h2 = on_event(h, s)
+        ev = s.ev
+        sn = set(snaps)
+        tgt, j = snap_of(ev)
+        wr = ev.get('var') if ev['k'] == 'decl' else (ev['lhs']['name'] if ev['k'] == 'store' and is_var(ev.get('lhs')) else None)
+        if wr is not None and wr != pos:
+            sn = {(v, k) for (v, k) in sn if v != wr}
+            if tgt is not None:
+                sn.add((tgt, j))
+        if ev['k'] == 'store' and is_var(ev.get('lhs'), pos):
+            op = ev.get('op')
+            c = const_of(ev.get('rhs'))
+            d = 1 if op == '++' else -1 if op == '--' else c if (op == '+=' and isinstance(c, int)) else None
+            sn = {(v, k - d) for (v, k) in sn if k - d >= -CAP} if d is not None else set()
+        return (h2, frozenset(sn))
+
+    def ed2(state, e):
+        h, snaps = state
+        h2 = on_edge(h, e)
+        if not snaps:
+            return (h2, snaps)
+        d = dict(snaps)
+        if e.label in ('true', 'false') and e.cond is not None:
+            r = e.rel()
+            if r and is_var(r[0]) and r[0]['name'] in d:
+                j = d[r[0]['name']]
+                c = const_of(r[2])
+                op = r[1]
+                nz = (op == '==' and isinstance(c, int) and c != 0) or (op == '!=' and c == 0) or (op in ('>', '>=') and isinstance(c, int) and c >= 1)
+                if nz and 0 <= j <= h2:
+                    h2 = min(CAP, max(h2, j + 1))
+        if e.label == 'case' and e.cond is not None and e.vs and is_var(e.cond) and e.cond['name'] in d:
+            j = d[e.cond['name']]
+            if 0 <= j <= h2 and all(v != 0 for v in e.vs):
+                h2 = min(CAP, max(h2, j + 1))
+        return (h2, snaps)
+    before2, at_exit2, sin2, bout2 = fn.forward((0, frozenset()), ev2, ed2)
+    bout = {b: {st[0] for st in sts} for b, sts in bout2.items()}
     # reads in terminator conditions: checked against the states leaving the block
     for bid, blk in fn.blocks.items():
         c = (blk.get('term') or {}).get('cond')
